@@ -267,6 +267,7 @@ class Interp:
         self.events = []  # notes: (kind, where, detail)
         self.module_cache = {}
         self.assumptions = set()
+        self.tables = {}
 
     def note(self, kind, where, detail):
         self.events.append((kind, where, detail))
@@ -353,6 +354,7 @@ class Interp:
     def e_JoinedStr(self, e, sc):
         parts = []
         allconst = True
+        lv = []
         for v in e.values:
             if isinstance(v, ast.Constant):
                 parts.append(str(v.value))
@@ -362,18 +364,48 @@ class Interp:
                     parts.append(str(x.v))
                 else:
                     allconst = False
+                    parts.append("{}")
+                    lv.extend(self.leaves(x))
         if allconst:
             return Const("".join(parts))
+        if lv:
+            out = lv[0].derive("f" + repr("".join(parts)), "str")
+            for o in lv[1:]:
+                out = out.combine(o, "fmt", "str")
+            return out
         return Top("f-string")
 
     def e_Tuple(self, e, sc):
         return TupS(self._elts(e.elts, sc))
 
     def e_List(self, e, sc):
-        return ListLit(self._elts(e.elts, sc))
+        v = ListLit(self._elts(e.elts, sc))
+        self._register_table(e, v, sc)
+        return v
 
     def e_Set(self, e, sc):
-        return SetS(self._elts(e.elts, sc))
+        v = SetS(self._elts(e.elts, sc))
+        self._register_table(e, v, sc)
+        return v
+
+    def _register_table(self, node, v, sc):
+        """literal list/set/dict of string constants defined inside a repo function: track which
+        members are ever matched when the table is probed (membership test / lookup)"""
+        if isinstance(v, DictS):
+            members = [k for k in v.items if isinstance(k, (str, tuple))]
+            ok = bool(members) and len(members) == len(v.items)
+        else:
+            members = [x.v for x in v.elts if isinstance(x, Const) and isinstance(x.v, str)]
+            ok = bool(members) and len(members) == len(v.elts)
+        if not ok:
+            return
+        owner = sc.owner
+        s = sc
+        while s is not None and not isinstance(s.owner, (FuncInfo, Module)):
+            s = s.parent
+        t = self.tables.setdefault(id(node), {"node": node, "members": list(members), "hits": set(), "probed": False,
+                                              "owner": getattr(owner, "key", getattr(owner, "name", "?")), "kind": type(v).__name__})
+        v.table = t
 
     def _elts(self, elts, sc):
         out = []
@@ -402,6 +434,7 @@ class Interp:
                 if not isinstance(kk, Const):
                     return Top("dict literal with non-constant key")
                 d.items[kk.v] = self.eval(v, sc)
+        self._register_table(e, d, sc)
         return d
 
     def e_Lambda(self, e, sc):
@@ -588,7 +621,12 @@ class Interp:
         if isinstance(v, Choice):
             return Choice([self.getitem(a, k, node) for a in v.alts])
         if isinstance(v, DictS) and isinstance(k, Const):
+            t = getattr(v, "table", None)
+            if t is not None:
+                t["probed"] = True
             if k.v in v.items:
+                if t is not None:
+                    t["hits"].add(k.v)
                 return v.items[k.v]
             self.note("missing-key", short(node, 60) if node is not None else "", f"key {k.v!r} not in {list(v.items)[:8]}")
             raise _Raise(f"KeyError {k.v!r}")
@@ -756,11 +794,19 @@ class Interp:
         return None
 
     def contains(self, coll, item):
+        t = getattr(coll, "table", None)
+        if t is not None:
+            t["probed"] = True
         if isinstance(coll, (ListLit, TupS, SetS)) and isinstance(item, Const):
             if all(isinstance(x, Const) for x in coll.elts):
-                return item.v in [x.v for x in coll.elts]
+                res = item.v in [x.v for x in coll.elts]
+                if res and t is not None:
+                    t["hits"].add(item.v)
+                return res
         if isinstance(coll, DictS) and isinstance(item, Const):
             if item.v in coll.items:
+                if t is not None:
+                    t["hits"].add(item.v)
                 return None if item.v in coll.optional else True
             return False
         if isinstance(coll, Const) and isinstance(item, Const):
